@@ -281,11 +281,14 @@ pub struct Opts {
     /// this purpose's script is supplied by a reference input instead of the witness set
     pub reference_script: Option<usize>,
     pub datum: DatumMode,
+    /// write the inputs, the mint map and the withdrawals map of the body in reverse
+    /// (non-canonical) order; the ledger sorts on decode, redeemer indices refer to the sorted order
+    pub reversed_body: bool,
 }
 
 impl Default for Opts {
     fn default() -> Self {
-        Opts { shift: 0, reference_script: None, datum: DatumMode::None }
+        Opts { shift: 0, reference_script: None, datum: DatumMode::None, reversed_body: false }
     }
 }
 
@@ -348,8 +351,20 @@ pub fn build_opts(purposes: &[Purpose], witness_order: &[usize], redeemer_order:
         })
         .collect();
     rewards.sort();
+    let as_written = |mut v: Vec<Vec<u8>>| {
+        if opts.reversed_body {
+            v.reverse();
+        }
+        v
+    };
+    let as_written_kv = |mut v: Vec<(Vec<u8>, Vec<u8>)>| {
+        if opts.reversed_body {
+            v.reverse();
+        }
+        v
+    };
     let mut body: Vec<(Vec<u8>, Vec<u8>)> = vec![
-        (uint(0), array(&sorted_inputs)),
+        (uint(0), array(&as_written(sorted_inputs.clone()))),
         (uint(1), array(&[map(&[(uint(0), bytes(&key_address())), (uint(1), uint(9_000_000))])])),
         (uint(2), uint(200_000)),
     ];
@@ -361,10 +376,10 @@ pub fn build_opts(purposes: &[Purpose], witness_order: &[usize], redeemer_order:
         body.push((uint(18), array(&[ref_in])));
     }
     if !rewards.is_empty() {
-        body.push((uint(5), map(&rewards.iter().map(|(a, _)| (bytes(a), uint(0))).collect::<Vec<_>>())));
+        body.push((uint(5), map(&as_written_kv(rewards.iter().map(|(a, _)| (bytes(a), uint(0))).collect::<Vec<_>>()))));
     }
     if !policies.is_empty() {
-        body.push((uint(9), map(&policies.iter().map(|(h, _)| (bytes(h), map(&[(bytes(b"t"), uint(1))]))).collect::<Vec<_>>())));
+        body.push((uint(9), map(&as_written_kv(policies.iter().map(|(h, _)| (bytes(h), map(&[(bytes(b"t"), uint(1))]))).collect::<Vec<_>>()))));
     }
     // redeemers: (tag, index, purpose index)
     let mut reds: Vec<(u64, u64, usize)> = vec![];
@@ -592,6 +607,20 @@ pub fn part(run: &mut Run, tier: Tier) -> (u64, u64) {
                         run.violation(Violation { signature: "script-run-with-another-purposes-redeemer-succeeds".into(), what: format!("every script demands its own redeemer value, the transaction gives each purpose another purpose's value, yet the simulation succeeds with {:?}", u), case: case.clone() });
                     }
                     wrong_redeemer_runs += 1;
+                }
+                // the body written in non-canonical order (inputs, mint map, withdrawals): same answer
+                {
+                    let b2 = build_opts(purposes, &(0..n).collect::<Vec<_>>(), &red_order, as_map, Opts { reversed_body: true, ..opts });
+                    sims += 1;
+                    let got = simulate(&b2, &all_utxos, None);
+                    let same = match (&got, &base) {
+                        (Ok(Ok(a)), Ok(b)) => a == b,
+                        (Ok(Err(_)), Err(_)) => true,
+                        _ => false,
+                    };
+                    if !same {
+                        run.violation(Violation { signature: "result-depends-on-the-serialisation-order-of-the-body".into(), what: format!("with the inputs, the mint map and the withdrawals written in reverse order in the body: {:?} instead of {:?}", got, base), case: case.clone() });
+                    }
                 }
                 // a script supplied by a reference input instead of the witness set: same answer
                 for r in 0..n {
